@@ -38,7 +38,7 @@ class Snapshot:
         elif isinstance(a, (list, tuple)):
             self.items.append((label, 'seq', a, list(a), len(a), type(a)))
             for i, x in enumerate(a):
-                if isinstance(x, (np.ndarray, list)) or hasattr(x, 'data'):
+                if isinstance(x, (np.ndarray, list)) or isinstance(getattr(x, 'data', None), list):
                     self._add(f'{label}[{i}]', x)
         elif hasattr(a, 'data') and isinstance(getattr(a, 'data'), list):
             self.items.append((label, 'obj', a, [d.copy() if isinstance(d, np.ndarray) else d for d in a.data], len(a.data), type(a)))
@@ -58,7 +58,7 @@ class Snapshot:
                 h.true(lab + ': length/type', len(obj) == shape and type(obj) is typ)
                 if len(obj) == shape:
                     for i, (x, y) in enumerate(zip(obj, old)):
-                        if isinstance(y, (np.ndarray, list, tuple)) or hasattr(y, 'data'):
+                        if isinstance(y, (np.ndarray, list, tuple)) or isinstance(getattr(y, 'data', None), list):
                             h.true(f'{lab}: element {i} identity', x is y)
                         else:
                             h.same(f'{lab}: element {i}', x, y)
